@@ -4,6 +4,7 @@ import (
 	"fmt"
 	"reflect"
 	"strings"
+	"unsafe"
 
 	"github.com/google/go-tdx-guest/abi"
 	pb "github.com/google/go-tdx-guest/proto/tdx"
@@ -39,6 +40,28 @@ type c16Guard struct {
 	msg    *pb.QuoteV4
 	shape  string // scalar fields and slice headers of the message
 	shape0 string
+	lists  []*c16List
+}
+
+// c16List is a caller-owned list of byte strings (an option such as AnyMrTd): which element sits where
+// is the caller's too.
+type c16List struct {
+	name string
+	l    [][]byte
+	ptrs []*byte
+	lens []int
+}
+
+func (g *c16Guard) addList(name string, l [][]byte) {
+	x := &c16List{name: name, l: l}
+	for _, e := range l {
+		var p *byte
+		if len(e) > 0 {
+			p = &e[0]
+		}
+		x.ptrs, x.lens = append(x.ptrs, p), append(x.lens, len(e))
+	}
+	g.lists = append(g.lists, x)
 }
 
 func fullCap(b []byte) []byte { return b[:cap(b)] }
@@ -148,6 +171,17 @@ func (g *c16Guard) changed() (what, where string, ok bool) {
 			}
 		}
 	}
+	for _, x := range g.lists {
+		for i, e := range x.l {
+			var p *byte
+			if len(e) > 0 {
+				p = &e[0]
+			}
+			if p != x.ptrs[i] || len(e) != x.lens[i] {
+				return "option-list-order", fmt.Sprintf("%s[%d] is no longer the element the caller put there", x.name, i), true
+			}
+		}
+	}
 	if g.msg != nil {
 		var sb strings.Builder
 		msgShape(reflect.ValueOf(g.msg), &sb)
@@ -161,6 +195,15 @@ func (g *c16Guard) changed() (what, where string, ok bool) {
 func (g *c16Guard) restore() {
 	for _, m := range g.mems {
 		copy(m.b, m.snap)
+	}
+	for _, x := range g.lists {
+		for i := range x.l {
+			if x.ptrs[i] != nil {
+				x.l[i] = unsafe.Slice(x.ptrs[i], x.lens[i])
+			} else {
+				x.l[i] = nil
+			}
+		}
 	}
 }
 
@@ -232,12 +275,22 @@ func c16Run(r *core.Run) {
 		"opt.QeVendorID": poisoned(q.QEVendor[:], 8), "opt.Rtmr0": poisoned(q.Rtmr[0][:], 8), "opt.Rtmr1": poisoned(q.Rtmr[1][:], 8),
 		"opt.Rtmr2": poisoned(q.Rtmr[2][:], 8), "opt.Rtmr3": poisoned(q.Rtmr[3][:], 8), "opt.MrTd": poisoned(q.MrTd[:], 8), "opt.Xfam": poisoned(q.Xfam[:], 8),
 	}
+	// the allow-list and the RTMR list are the callers' too (one list shared by all tasks' options values): the
+	// quote's MR_TD sits between a larger and a smaller decoy, i.e. the list is in no particular order
+	optBytes["opt.AnyMrTd.hi"], optBytes["opt.AnyMrTd.lo"] = poisoned(bytesOf(0xfe, 48), 8), poisoned(bytesOf(0x01, 48), 8)
+	sharedAny := [][]byte{optBytes["opt.AnyMrTd.hi"], optBytes["opt.MrTd"], optBytes["opt.AnyMrTd.lo"]}
+	if t.Bool() {
+		sharedAny = [][]byte{optBytes["opt.MrTd"], optBytes["opt.AnyMrTd.hi"], optBytes["opt.AnyMrTd.lo"]}
+	}
+	sharedRtmrs := [][]byte{optBytes["opt.Rtmr0"], optBytes["opt.Rtmr1"], optBytes["opt.Rtmr2"], optBytes["opt.Rtmr3"]}
 	mkVopts := func() *validate.Options {
 		return &validate.Options{HeaderOptions: validate.HeaderOptions{QeVendorID: optBytes["opt.QeVendorID"]},
 			TdQuoteBodyOptions: validate.TdQuoteBodyOptions{MrSeam: optBytes["opt.MrSeam"], ReportData: optBytes["opt.ReportData"], MinimumTeeTcbSvn: optBytes["opt.MinTee"], Xfam: optBytes["opt.Xfam"],
-				Rtmrs: [][]byte{optBytes["opt.Rtmr0"], optBytes["opt.Rtmr1"], optBytes["opt.Rtmr2"], optBytes["opt.Rtmr3"]}, AnyMrTd: [][]byte{optBytes["opt.MrTd"]}}}
+				Rtmrs: sharedRtmrs, AnyMrTd: sharedAny}}
 	}
 	g := newGuard(msg)
+	g.addList("opt.AnyMrTd", sharedAny)
+	g.addList("opt.Rtmrs", sharedRtmrs)
 	g.add("raw", raw)
 	for _, k := range core.SortedKeys(optBytes) {
 		g.add(k, optBytes[k])
@@ -505,7 +558,7 @@ func init() {
 	register(&core.Check{
 		ID:    "C16",
 		Level: "exploration",
-		Rule: "per run: 2-3 tasks share one quote message (parsed from bytes / built field by field with 0xA5-poisoned spare capacity behind every bytes field / protobuf-decoded), the raw input buffer (poisoned spare capacity) and 10 option byte strings; each task runs 1-3 tape-chosen calls of verify.TdxQuote (base / collateral / revocation), validate.TdxQuote, abi.QuoteToAbiBytes, verify.ExtractChainFromQuote, rtmr.GetRtmrsFromTdQuote, abi.QuoteToProto / verify.RawTdxQuote / validate.RawTdxQuote on the shared buffer. The code under test is an AST-instrumented scratch copy of /repo with a yield point before every statement of abi, verify, validate, pcs, rtmr (about 1450 sites). Solo pass: each call alone with a before/after snapshot of every region up to capacity (a failing call is re-run with the check at every yield to name the writing statement). Scheduled pass: the seeded scheduler preempts at d<=3 tape-chosen yield indices (PCT style) and at every Getter park; at every context switch and at the end all regions and the message's scalars / slice headers must be unchanged, and every verdict must equal its solo verdict. Plus the aliasing check input<->message around abi.QuoteToProto. " +
+		Rule: "per run: 2-3 tasks share one quote message (parsed from bytes / built field by field with 0xA5-poisoned spare capacity behind every bytes field / protobuf-decoded), the raw input buffer (poisoned spare capacity) and 12 option byte strings in two caller-owned lists (AnyMrTd in no particular order, Rtmrs); each task runs 1-3 tape-chosen calls of verify.TdxQuote (base / collateral / revocation), validate.TdxQuote, abi.QuoteToAbiBytes, verify.ExtractChainFromQuote, rtmr.GetRtmrsFromTdQuote, abi.QuoteToProto / verify.RawTdxQuote / validate.RawTdxQuote on the shared buffer. The code under test is an AST-instrumented scratch copy of /repo with a yield point before every statement of abi, verify, validate, pcs, rtmr (about 1450 sites). Solo pass: each call alone with a before/after snapshot of every region up to capacity (a failing call is re-run with the check at every yield to name the writing statement). Scheduled pass: the seeded scheduler preempts at d<=3 tape-chosen yield indices (PCT style) and at every Getter park; at every context switch and at the end all regions and the message's scalars / slice headers must be unchanged, and every verdict must equal its solo verdict. Plus the aliasing check input<->message around abi.QuoteToProto. " +
 			"distinct = (form, K, d, switch sequence as (from,to,function))",
 		Assumptions: []string{
 			"no call synchronises on the quote, so any write to memory reachable from it races with any concurrent reader; with no writes there is nothing to race on in that memory. Package-level state is covered by verdict equality under interleaving",
